@@ -593,6 +593,78 @@ func ruleC09For(p *Prog, a *Anchors, r *Report) {
 	if types.Identical(args[0].Type(), types.NewPointer(a.Value)) {
 		r.OK("object", p.InstrPos(calls[0].(ssa.Instruction)), "iterates the evaluated object")
 	}
+	// the empty part runs when the loop has no position of its own: `forloop` there is the enclosing loop's. The context
+	// it is executed in must not be the one whose "forloop" entry this node has set to its own (fresh) record
+	{
+		cellOfCtx := func(v ssa.Value, mc *ssa.MakeClosure) ssa.Value {
+			// the variable a context value is read from: a local cell of Execute, seen from a closure through its binding
+			u, ok := v.(*ssa.UnOp)
+			if !ok {
+				return v
+			}
+			switch ad := u.X.(type) {
+			case *ssa.Alloc:
+				return ad
+			case *ssa.FreeVar:
+				if mc != nil {
+					fn := mc.Fn.(*ssa.Function)
+					for i, fv := range fn.FreeVars {
+						if fv == ad && i < len(mc.Bindings) {
+							return mc.Bindings[i]
+						}
+					}
+				}
+			}
+			return v
+		}
+		var own []ssa.Value // contexts whose forloop entry is this loop's record
+		for _, b := range f.Blocks {
+			for _, in := range b.Instrs {
+				mu, ok := in.(*ssa.MapUpdate)
+				if !ok {
+					continue
+				}
+				if k, isK := constString(mu.Key); !isK || k != "forloop" {
+					if mi, isMI := mu.Key.(*ssa.MakeInterface); !isMI {
+						continue
+					} else if k2, isK2 := constString(mi.X); !isK2 || k2 != "forloop" {
+						continue
+					}
+				}
+				base, n, _ := fieldLoadBase(mu.Map)
+				if n == nil || n.Obj().Name() != "ExecutionContext" {
+					continue
+				}
+				own = append(own, cellOfCtx(base, nil))
+			}
+		}
+		emc, _ := args[2].(*ssa.MakeClosure)
+		var bad ssa.Instruction
+		found := false
+		for _, b := range empty.Blocks {
+			for _, in := range b.Instrs {
+				ci, ok := in.(ssa.CallInstruction)
+				if !ok || ci.Common().StaticCallee() == nil || ci.Common().StaticCallee().Name() != "Execute" || len(ci.Common().Args) < 2 || !loadsField(ci.Common().Args[0], "tagForNode", "emptyWrapper") {
+					continue
+				}
+				found = true
+				cv := cellOfCtx(ci.Common().Args[1], emc)
+				for _, o := range own {
+					if o == cv {
+						bad = in
+					}
+				}
+			}
+		}
+		switch {
+		case !found || len(own) == 0:
+			r.Assume("empty-position", p.Pos(empty.Pos()), "the context the empty part is executed in could not be related to the one that carries the loop's own forloop record")
+		case bad != nil:
+			r.Bad("empty-position", p.InstrPos(bad), "the empty part is executed in the context whose `forloop` this node has just set to its own fresh record: inside {%% empty %%} forloop.Counter is 0, Revcounter 0, First true and Last false — a position that does not exist — instead of the position of the enclosing loop, which is where the rendering stands when the inner loop has nothing to iterate")
+		default:
+			r.OK("empty-position", p.Pos(empty.Pos()), "the empty part is not executed in the context that carries this loop's own forloop record")
+		}
+	}
 	// the item callback stops the iteration on error
 	stops := false
 	for _, ret := range returnsOf(item) {
